@@ -1,0 +1,106 @@
+"""Verification hooks (disabled unless the environment variable MDPAX_VERIF=1).
+
+With the guard off ``ENABLED`` is False and every call site reduces to one
+attribute test.  With the guard on, ``emit(event, **fields)`` assigns a
+per-process sequence number to the event, hands it to the in-process sinks
+registered with ``add_sink`` and, when ``MDPAX_VERIF_TRACE`` names a file,
+appends one JSON line to it with an unbuffered write.  When the sequence
+number reaches ``MDPAX_VERIF_KILL_AT`` the process is killed with SIGKILL
+after the line has been written (crash injection at a hook point).
+"""
+
+import hashlib
+import json
+import os
+import signal
+
+ENABLED = os.environ.get("MDPAX_VERIF") == "1"
+
+_sinks = []
+_seq = 0
+_fd = None
+
+
+def add_sink(fn) -> None:
+    """Register an in-process sink ``fn(seq, event, fields)``."""
+    _sinks.append(fn)
+
+
+def clear_sinks() -> None:
+    """Remove all in-process sinks."""
+    del _sinks[:]
+
+
+def _encode(value, max_items):
+    """JSON-friendly rendering: exact for floats, digest for large arrays."""
+    import numpy as np
+
+    if value is None or isinstance(value, (bool, int, str)):
+        return value
+    if isinstance(value, float):
+        return {"f": value.hex()}
+    if isinstance(value, (list, tuple)):
+        return [_encode(v, max_items) for v in value]
+    if isinstance(value, dict):
+        return {str(k): _encode(v, max_items) for k, v in value.items()}
+    try:
+        arr = np.asarray(value)
+    except Exception:
+        return repr(value)
+    if arr.dtype == object:
+        return repr(value)
+    out = {
+        "shape": list(arr.shape),
+        "dtype": str(arr.dtype),
+        "sha": hashlib.sha256(np.ascontiguousarray(arr).tobytes()).hexdigest()[:16],
+    }
+    if arr.size <= max_items:
+        flat = arr.reshape(-1).tolist()
+        if arr.dtype.kind == "f":
+            out["hex"] = [float(x).hex() for x in flat]
+        else:
+            out["val"] = flat
+    return out
+
+
+def snapshot(solver) -> dict:
+    """Runtime state of a solver as a plain dict (fields absent on a kind omitted)."""
+    out = {}
+    for name in (
+        "iteration",
+        "values",
+        "policy",
+        "gain",
+        "history_index",
+        "value_history",
+        "period",
+        "batch_order",
+    ):
+        if hasattr(solver, name):
+            out[name] = getattr(solver, name)
+    return out
+
+
+def emit(event: str, **fields) -> None:
+    """Record one event (no-op unless MDPAX_VERIF=1)."""
+    global _seq, _fd
+    if not ENABLED:
+        return
+    _seq += 1
+    for sink in list(_sinks):
+        sink(_seq, event, fields)
+    path = os.environ.get("MDPAX_VERIF_TRACE")
+    if path:
+        if _fd is None:
+            _fd = os.open(path, os.O_WRONLY | os.O_CREAT | os.O_APPEND, 0o644)
+        max_items = int(os.environ.get("MDPAX_VERIF_MAXARR", "64"))
+        rec = {"seq": _seq, "pid": os.getpid(), "event": event}
+        for key, value in fields.items():
+            if key == "solver":
+                rec["state"] = _encode(snapshot(value), max_items)
+                continue
+            rec[key] = _encode(value, max_items)
+        os.write(_fd, (json.dumps(rec) + "\n").encode())
+    kill_at = os.environ.get("MDPAX_VERIF_KILL_AT")
+    if kill_at and _seq == int(kill_at):
+        os.kill(os.getpid(), signal.SIGKILL)
